@@ -1,4 +1,8 @@
 """C05 - the lexer partitions its input and reports exact positions."""
+import json
+import os
+import subprocess
+
 import vp
 
 LEVEL = "model_checking"
@@ -11,6 +15,80 @@ def cfg(n, sigma):
             % (n, sigma, INV))
 
 
+TESTMAIN = """
+func TestMain(m *testing.M) {
+	stop := traceToFile(os.Getenv("VERIF_TRACE_FILE"))
+	code := m.Run()
+	stop()
+	os.Exit(code)
+}
+"""
+
+
+def trace_repo_tests(ctx):
+    """Run the repository's own test suite with the session tracer (harness/tracer.go) compiled into the test
+    binary through `go test -overlay` (nothing is written into the repository) and return the trace file."""
+    d = ctx.path("overlay")
+    os.makedirs(d, exist_ok=True)
+    src = open(os.path.join(vp.VERIF, "harness", "tracer.go")).read()
+    src = src.replace("package main", "package influxql_test", 1).replace("import (\n", "import (\n\t\"testing\"\n", 1) + TESTMAIN
+    tf = os.path.join(d, "zz_verif_trace_test.go")
+    open(tf, "w").write(src)
+    ovf = os.path.join(d, "overlay.json")
+    json.dump({"Replace": {os.path.join(vp.REPO, "zz_verif_trace_test.go"): tf}}, open(ovf, "w"))
+    trace = ctx.path("obs_repotests.ndjson")
+    env = vp.go_env()
+    env["VERIF_TRACE_FILE"] = trace
+    p = subprocess.run(["go", "test", "-tags", "verif", "-overlay", ovf, "-vet=off", "-count=1", "-timeout", "20m", "."],
+                       cwd=vp.REPO, env=env, stdout=subprocess.PIPE, stderr=subprocess.STDOUT, text=True, timeout=1500)
+    if not os.path.exists(trace) or ctx.count_lines(trace) < 2:
+        raise vp.Broken("the repository's tests produced no trace under the overlay tracer:\n" + p.stdout[-3000:])
+    if p.returncode != 0:
+        ctx.note("the repository's own tests FAIL on this tree (their verdict is not this check's business); "
+                 "the sessions they produced are validated all the same")
+    return trace
+
+
+def insitu(ctx, mutcases):
+    """Trace validation of executions nobody arranged for this property: (1) every scanner session of the repository's
+    own test suite, (2) the parser's sessions over the single-token mutation corpus (mostly error paths) and over the
+    short operator / number inputs read as expressions.  Judged by the trace specification ScanTrace.tla."""
+    trace = trace_repo_tests(ctx)
+    summ = ctx.read_ndjson(trace)[-1]["obs"]
+    ctx.judge("ScanTrace", "ScanTrace.cfg", trace, label="repotests", chunk=4000, suite="c05t")
+    ctx.note("in-situ trace of the repository's tests: %s scanner sessions (%s distinct), %s reader/ring events"
+             % (summ.get("sessions"), summ.get("distinct"), summ.get("events")))
+    ctx.coverage_extra["repotests.sessions"] = int(summ.get("sessions", 0))
+    ctx.coverage_extra["repotests.events"] = int(summ.get("events", 0))
+
+    def corrupt(r):
+        o = r["obs"]
+        ev, toks = o.get("ev") or [], o.get("toks") or []
+        if r["id"] % 2 == 0:
+            for t in toks:
+                if t[0] not in ("STRING", "BADSTRING", "BADESCAPE", "EOF"):
+                    t[2] += 1          # a token reported one column to the right
+                    return True
+            return False
+        for k, e in enumerate(ev):
+            if e // 1000 == 3:          # one unread step lost
+                del ev[k]
+                return True
+        return False
+    vp.binding_selftest(ctx, "ScanTrace", "ScanTrace.cfg", trace, corrupt, n=120)
+    of = ctx.path("obs_insitu_mut.ndjson")
+    ctx.drive("c05t", mutcases, of)
+    ctx.judge("ScanTrace", "ScanTrace.cfg", of, label="insitu_mut", chunk=6000, suite="c05t")
+    ctx.note("in-situ trace of ParseQuery over the mutation corpus: %d sessions" % ctx.count_lines(of))
+    for a in ("SigmaOps4", "SigmaNum4"):
+        cf = ctx.path("cases_%s.ndjson" % a)
+        if os.path.exists(cf):
+            of = ctx.path("obs_insitu_%s.ndjson" % a)
+            ctx.drive("c05t", cf, of, env={"VERIF_ENTRY": "expr"})
+            ctx.judge("ScanTrace", "ScanTrace.cfg", of, label="insitu_" + a, chunk=8000, suite="c05t")
+            ctx.note("in-situ trace of ParseExpr over %s: %d sessions" % (a, ctx.count_lines(of)))
+
+
 def run(ctx):
     ctx.stage_specs(*SPECDIRS)
     ctx.build_driver()
@@ -18,7 +96,11 @@ def run(ctx):
                 "model-checks the rune-level design spec of scanner.go against the declarative property spec on each; "
                 "every input is scanned by the real Scanner with the hook-based source meter, and seeded random multi-line "
                 "texts built from token spellings are added. Distinct = distinct inputs; non-trivial = at least two "
-                "tokens before EOF (counted by the TLA+ judge).")
+                "tokens before EOF (counted by the TLA+ judge). Trace validation (ScanTrace.tla): every scanner session of the "
+                "repository's own test suite (tracer compiled in with go test -overlay) and the parser's sessions over the "
+                "single-token mutation corpus and the short inputs read as expressions are replayed step by step through the "
+                "reader / token-ring model: ring discipline with inferred Unscan counts, position of every token, progress, "
+                "sticky EOF.")
     ctx.assumptions = ["TLC 1.8 + CommunityModules", "source extents are measured from bufio/strings.Reader consumption at the "
                        "reader hook events (harness/suite_c05.go: meter)", "NUL is excluded from inputs (it is the reader's EOF marker)"]
     n = 4 if ctx.quick else 5
@@ -69,8 +151,10 @@ def run(ctx):
     ctx.drive("c05err", cf, of)
     ctx.judge("Judge_c05e", "Judge_c05e.cfg", of, label="errpos", chunk=8000)
     ctx.note("parse-error positions: %d mutated statements" % ctx.count_lines(of))
+    insitu(ctx, cf)
     ctx.coverage_extra["exhaustive_parts"] = alphabets + ["errpos"]
     ctx.coverage_extra["sampled_parts"] = ["rand"]
+    ctx.coverage_extra["trace_validation_parts"] = ["repotests", "insitu_mut", "insitu_SigmaOps4", "insitu_SigmaNum4"]
     ctx.exhaustive = False
     return vp.case_finder
 
